@@ -176,6 +176,9 @@ def stage_equivariance(ck):
     pcfg = NssConfig()
     pcfg.simulation.spectrum = Simulation.PowerSpectrum(index=2.2, lower_bound=7.0, upper_bound=11.0)
     spectra = Spectra(pcfg)
+    p1cfg = NssConfig()
+    p1cfg.simulation.spectrum = Simulation.PowerSpectrum(index=1.0, lower_bound=7.0, upper_bound=11.0)  # dN/dE ~ 1/E: the special case of the sampler
+    spectra1 = Spectra(p1cfg)
 
     def cols(n):
         beta = np.radians(rng.uniform(0.5, 40.0, n))
@@ -215,11 +218,16 @@ def stage_equivariance(ck):
         with harness.patched_rng([c["u"].copy()]):
             return (np.asarray(spectra(len(c["u"]))[0]),)
 
-    stages = (("Taus.tau_exit_prob", st_pexit), ("Taus.tau_energy", st_etau), ("EAS.altDec", st_altdec), ("EAS.__call__", st_eas), ("EASRadio.__call__ + calculate_snr", st_radio), ("Spectra.__call__", st_spectrum))
+    def st_spectrum1(c):
+        with harness.patched_rng([c["u"].copy()]):
+            return (np.asarray(spectra1(len(c["u"]))[0]),)
+
+    stages = (("Spectra.__call__ (power law, index 1)", st_spectrum1), ("Taus.tau_exit_prob", st_pexit), ("Taus.tau_energy", st_etau), ("EAS.altDec", st_altdec), ("EAS.__call__", st_eas), ("EASRadio.__call__ + calculate_snr", st_radio), ("Spectra.__call__", st_spectrum))
 
     def rebuild():
         """fresh objects for every stage (the ones above have been called many times by then)"""
-        nonlocal taus, eas, radio, spectra
+        nonlocal taus, eas, radio, spectra, spectra1
+        spectra1 = Spectra(p1cfg)
         taus = C05.fresh_taus("3")
         eas = EAS(cfg)
         radio = EASRadio(rcfg)
